@@ -14,6 +14,9 @@ structure SEntry where
   id       : Nat
   timerKey : Nat
   rid      : Nat          -- the execution holding the matching `AbortRegistration`
+  /-- `deadline_remainder` (ns): how much of the time until the deadline the timer has not been armed
+  with yet; nonzero only for deadlines further away than the clamp -/
+  remainder : Nat := 0
 deriving Repr, DecidableEq
 
 inductive EPhase where
@@ -160,26 +163,62 @@ def cancelRequest (s : St) (id : Nat) : St × Bool :=
       let s := abortExec s e.rid
       (removeTimer s e.timerKey, true)
 
+/-- The timeout a deadline timer is armed with (`Gen.serverTimerClampSecs`; 0 = not clamped). -/
+def clampTimeout (t : Nat) : Nat :=
+  if Gen.serverTimerClampSecs == 0 then t else min t (Gen.serverTimerClampSecs * 1000000000)
+
 /-- `poll_expired` (with the `is_empty` short-cut). -/
 inductive ExpRes where
   | ready | closed | pending
 deriving Repr, DecidableEq
 
-def pollExpired (s : St) (now : Nat) : St × ExpRes :=
-  if s.timers.isEmpty then (s, .closed)
-  else
-    match s.timers.pollExpired now with
-    | (q, .expired e) =>
-        let s := { s with timers := q }
-        match findEntry s e.val with
-        | some en => (abortExec { s with inflight := s.inflight.filter (·.id != e.val) } en.rid, .ready)
-        | none => (s, .ready)
-    | (q, .none) => ({ s with timers := q }, .closed)
-    | (q, .pending) => ({ s with timers := q }, .pending)
+/-- `poll_expired` finds that the timer that fired was armed with a clamped timeout: it arms a new one
+with (the next clamped part of) the rest, records its key and what is then still left; `none` = the
+`DelayQueue::insert` panicked. -/
+def rearm (s : St) (now : Nat) (en : SEntry) : Option St :=
+  match s.timers.insert now (clampTimeout en.remainder) en.id with
+  | (_, .panic, _) => none
+  | (q, .ok key, woke) =>
+      let s := if woke then wakeServer s else s
+      some { s with timers := q,
+                    inflight := s.inflight.map (fun x =>
+                      if x.id == en.id then { x with timerKey := key, remainder := x.remainder - clampTimeout x.remainder }
+                      else x) }
 
-/-- The timeout a deadline timer is armed with (`Gen.serverTimerClampSecs`; 0 = not clamped). -/
-def clampTimeout (t : Nat) : Nat :=
-  if Gen.serverTimerClampSecs == 0 then t else min t (Gen.serverTimerClampSecs * 1000000000)
+/-- One iteration of the loop of `poll_expired`; `none` = `continue` (a timer was re-armed). -/
+def expireStep (s : St) (now : Nat) : St × Option ExpRes :=
+  match s.timers.pollExpired now with
+  | (q, .expired e) =>
+      let s1 := { s with timers := q }
+      match findEntry s1 e.val with
+      | some en =>
+          if en.remainder != 0 then
+            match rearm s1 now en with
+            | some s2 => (s2, none)
+            -- the task panicked: nothing runs on this state any more (it is left as before the poll)
+            | none => (emit { s with poisoned := true } (.panic (tid s) "DelayQueue::insert: invalid deadline"), some .closed)
+          else (abortExec { s1 with inflight := s1.inflight.filter (·.id != e.val) } en.rid, some .ready)
+      | none => (s1, some .ready)
+  | (q, .none) => ({ s with timers := q }, some .closed)
+  | (q, .pending) => ({ s with timers := q }, some .pending)
+
+def pollExpiredLoop : Nat → St → Nat → St × ExpRes
+  | 0, s, _ => (emit s (.spin (tid s)), .pending)
+  | fuel + 1, s, now =>
+      match expireStep s now with
+      | (s, some r) => (s, r)
+      | (s, none) => pollExpiredLoop fuel s now
+
+/-- How many more times a timer with this much left can be re-armed. -/
+def rearmSteps (r : Nat) : Nat :=
+  if Gen.serverTimerClampSecs == 0 then (if r == 0 then 0 else 1)
+  else (r + Gen.serverTimerClampSecs * 1000000000 - 1) / (Gen.serverTimerClampSecs * 1000000000)
+
+/-- Every `continue` re-arms a timer, which uses up one of its `rearmSteps`. -/
+def expireFuel (s : St) : Nat := (s.inflight.map (fun en => rearmSteps en.remainder)).sum + 1
+
+def pollExpired (s : St) (now : Nat) : St × ExpRes :=
+  if s.timers.isEmpty then (s, .closed) else pollExpiredLoop (expireFuel s) s now
 
 /-- `start_request`; `none` = duplicate id (ignored). -/
 def startRequest (s : St) (now : Nat) (id deadline : Nat) (trace : Trace) (body : Nat) : St × Option Exec :=
@@ -193,7 +232,8 @@ def startRequest (s : St) (now : Nat) (id deadline : Nat) (trace : Trace) (body 
         let tr : Trace := { trace with span := .fresh s.nextFresh }
         let e : Exec := { rid := rid, id := id, deadline := deadline, trace := tr, body := body, guardArmed := false }
         ({ s with timers := q, nextFresh := s.nextFresh + 1,
-                  inflight := s.inflight ++ [{ id := id, timerKey := key, rid := rid }],
+                  inflight := s.inflight ++ [{ id := id, timerKey := key, rid := rid,
+                                               remainder := (deadline - now) - clampTimeout (deadline - now) }],
                   execs := s.execs ++ [e] }, some e)
 
 /-! ### `BaseChannel::poll_next` -/
